@@ -131,6 +131,12 @@ def check_extract(run, S, name, spec, kw):
                 neg = True if rs == {'lt'} else (False if not (rs & {'lt', 'le'}) else neg)
         if pos and neg:
             continue                # T > k|q|^2 >= 0 >= -k|q|^2 > T: infeasible
+        # k|q|^2 >= 0, so each strict relation refutes the other one whether or not the path tested it (the two pole tests may
+        # come in either order)
+        if neg is True and pos is None:
+            pos = False
+        if pos is True and neg is None:
+            neg = False
         # class of the value
         try:
             xe, ye = scalar_el(cv, x), scalar_el(cv, y)
@@ -185,8 +191,9 @@ def run(tier):
     specs.selfcheck()
     spec_selfcheck()
     h = build()
+    mono_ = h.monomorphise(['f32', 'f64'], bound='<S: BaseFloat>', kinds=None, method_syntax=True, soft=True)   # concrete scalar types, both spellings: what a user of f32 / f64 really gets
     S, inv, meta = facts.extract(PROP, h.src())
-    report_dropped(run, meta)
+    report_dropped(run, meta, h)
     run_specs(run, S, h, custom={'extract': check_extract})
     run.floor('roots', len(run.roots), len(h.specs))
     return run.finish(
